@@ -34,7 +34,7 @@ inductive Tok
   | h1 (magic : Nat) (off : Int) (codec : Bool)
   /-- key and value of an uncompressed v0/v1 message -/
   | kv (tag : Nat) (size : Nat)
-  /-- null key and compressed value of a v0/v1 wrapper message holding inner messages (offset field, digest) -/
+  /-- key (null or not) and compressed value of a v0/v1 wrapper message holding inner messages (offset field, digest) -/
   | zv (size : Nat) (inner : List (Int × Nat))
   /-- partial bytes: whatever the code tries to read next fails with errShortRead -/
   | cut
